@@ -27,6 +27,8 @@ COOKIE_LENGTH = 24
 COOKIE_LIFETIME = 60
 MAX_STREAMS = 65535
 USERDATA_MAX_LENGTH = 1200
+# gap blocks and duplicate TSNs reported by one SACK, so that it fits in a packet
+SACK_MAX_ENTRIES = (USERDATA_MAX_LENGTH - 16) // 4
 
 # packet and chunk constants
 SCTP_COMMON_HEADER_LENGTH = 12
@@ -1482,16 +1484,21 @@ class RTCSctpTransport(AsyncIOEventEmitter):
         gap_next = None
         for tsn in self._sack_misordered_sorted():
             pos = (tsn - self._last_received_tsn) % SCTP_TSN_MODULO
+            if pos > 0xFFFF:
+                # gap block offsets are 16 bits, the rest cannot be reported
+                break
             if tsn == gap_next:
                 gaps[-1][1] = pos
             else:
+                if len(gaps) == SACK_MAX_ENTRIES:
+                    break
                 gaps.append([pos, pos])
             gap_next = tsn_plus_one(tsn)
 
         sack = SackChunk()
         sack.cumulative_tsn = self._last_received_tsn
         sack.advertised_rwnd = max(0, self._advertised_rwnd)
-        sack.duplicates = self._sack_duplicates[:]
+        sack.duplicates = self._sack_duplicates[: SACK_MAX_ENTRIES - len(gaps)]
         sack.gaps = [tuple(x) for x in gaps]
 
         await self._send_chunk(sack)
